@@ -1135,4 +1135,230 @@ Section Core.
     apply hoare_of_pres; pauto.
   Qed.
   Hint Resolve pres_coll_prepare : pr.
+
+  Lemma pres_prepare_attr_value sp inst value attrs : pres (prepare_attr_value ct rec sp inst value attrs).
+  Proof. unfold prepare_attr_value. pauto. Qed.
+  Hint Resolve pres_prepare_attr_value : pr.
+
+  Lemma pres_setattr l a v force skip : pres (setattr_ ct rec l a v force skip).
+  Proof. unfold setattr_. pauto. Qed.
+
+  Lemma pres_init c self kw0 : pres (init_ ct rec c self kw0).
+  Proof. unfold init_. pauto. Qed.
+
+  Lemma pres_construct c pos kw : pres (construct ct rec c pos kw).
+  Proof. unfold construct. pauto. Qed.
+
+  Theorem body_pres k : pres (body ct rec k).
+  Proof.
+    destruct k; simpl.
+    - apply pres_setattr.
+    - apply pres_delattr.
+    - apply pres_construct.
+    - apply pres_init.
+    - apply pres_mutate_value.
+  Qed.
 End Core.
+
+#[export] Hint Resolve pres_loc_of pres_read_inst pres_cls_of pres_raw_setattr_init pres_raw_delattr
+  pres_getattr_default pres_invalidate_attrs pres_mutate_attr_checked pres_run_factory pres_default_value
+  pres_lookup_default_value pres_delattr pres_instantiate_ty pres_prepare_item pres_apply_xform pres_str_key
+  pres_mutate_value pres_loc_of_t pres_read_list pres_read_dict pres_read_set pres_find_eq_index
+  pres_dict_lookup pres_dict_assign pres_set_mem pres_set_discard pres_seq_extractor pres_map_extractor
+  pres_set_extractor pres_seq_inserter pres_map_inserter pres_set_inserter pres_create_collection
+  pres_truthy_collection pres_mutate_collection pres_add_items pres_prepare_items pres_coll_prepare
+  pres_prepare_attr_value pres_setattr pres_init pres_construct : pr.
+#[export] Hint Extern 1 (TypeProofs.pres _ (alloc _)) => (apply pres_alloc; intros ? ? E; inversion E; reflexivity) : pr.
+
+Section Exec.
+  Variable ct : ctable.
+  Hypothesis no_reserved : forall c k, lookup_cls ct c = Some k -> lookup_attr k A_INITIALIZING = None.
+
+  Theorem exec_pres fuel : forall k, pres ct (exec ct fuel k).
+  Proof.
+    induction fuel as [|f IH]; intro k; simpl; [apply pres_fail|].
+    apply body_pres; auto.
+  Qed.
+End Exec.
+
+Section Helpers.
+  Variable ct : ctable.
+  Hypothesis no_reserved : forall c k, lookup_cls ct c = Some k -> lookup_attr k A_INITIALIZING = None.
+  Notation rec := (exec ct XFUEL).
+  Let Hrec : forall k, pres ct (rec k) := exec_pres ct no_reserved XFUEL.
+  Local Opaque exec XFUEL.
+  Local Hint Resolve Hrec : pr.
+  Let p_thawed := @pres_thawed ct no_reserved.
+  Let p_thawed_val := @pres_thawed_val ct no_reserved.
+
+  Ltac pauto :=
+    first [ solve [pprim]
+          | lazymatch goal with
+            | |- TypeProofs.pres _ (ret _) => apply pres_ret
+            | |- TypeProofs.pres _ (fail _) => apply pres_fail
+            | |- TypeProofs.pres _ (bind _ _) => apply pres_bind; [pauto | intros; pauto]
+            | |- TypeProofs.pres _ (iterM _ _) => apply pres_iterM; intros; pauto
+            | |- TypeProofs.pres _ (mapM _ _) => apply pres_mapM; intros; pauto
+            | |- TypeProofs.pres _ (foldM _ _ _) => apply pres_foldM; intros; pauto
+            | |- TypeProofs.pres _ (thawed_val _ _ _ _) => apply p_thawed_val; pauto
+            | |- TypeProofs.pres _ (thawed _ _ _ _) => apply p_thawed; pauto
+            | |- TypeProofs.pres _ (catch _ _ _) => apply pres_catch; pauto
+            | |- TypeProofs.pres _ (let _ := _ in _) => cbv zeta; pauto
+            | |- TypeProofs.pres _ (if ?c then _ else _) => destruct c; pauto
+            | |- TypeProofs.pres _ (match ?x with _ => _ end) => destruct x; pauto
+            end ].
+
+  (* the attribute spec of a on the receiver: found in the class of l *)
+  Definition attr_of (l : loc) (a : aid) (sp : attr_spec) (h : heap_t) : Prop :=
+    exists c k, has_shape (3 + c) l h /\ lookup_cls ct c = Some k /\ lookup_attr k a = Some sp.
+
+  Lemma attr_of_stable l a sp : stable (attr_of l a sp).
+  Proof.
+    intros h h' E [c [k [S H]]]. exists c, k. split; auto. eapply has_shape_stable; eauto.
+  Qed.
+
+  Lemma spec_for_hoare l a : hoare ct TT (spec_for ct l a) (fun r h => attr_of l a (snd r) h).
+  Proof.
+    unfold spec_for. eapply hoare_bind; [apply read_inst_hoare|]. intros [c d]. simpl fst.
+    eapply hoare_bind; [apply cls_of_hoare|]. intros k.
+    destruct (lookup_attr k a) as [sp|] eqn:Ha; [|apply hoare_fail].
+    apply hoare_ret. simpl. intros h [Hk [S _]]. exists c, k. auto.
+  Qed.
+
+  Lemma pres_mk_mutator sp l inplace : pres ct (mk_mutator ct sp l inplace).
+  Proof. unfold mk_mutator. pauto. Qed.
+
+  Lemma pres_with_attr l sp new attrs inplace : pres ct (with_attr ct l sp new attrs inplace).
+  Proof. unfold with_attr. pauto. Qed.
+  Lemma pres_current_value l sp inplace used : pres ct (current_value ct l sp inplace used).
+  Proof. unfold current_value. pauto. Qed.
+  Local Hint Resolve pres_mk_mutator pres_with_attr pres_current_value : pr.
+
+  Lemma family_not_simple t f : family_of t = Some f -> simple t = false.
+  Proof. destruct t; simpl; auto; discriminate. Qed.
+
+  (* the final store of an element helper: no type check, collection-typed attribute *)
+  Lemma store_collection l a sp v inplace :
+    family_of (a_ty sp) <> None ->
+    hoare ct (attr_of l a sp) (mutate_attr ct rec l a v inplace false false false) (fun _ _ => True).
+  Proof.
+    intro Fam. eapply hoare_pre; [|apply mutate_attr_hoare; auto].
+    intros h [c [k [S [Hk Ha]]]] _. exists c. split; auto.
+    intros k' sp' Hk' Ha' Hs. rewrite Hk in Hk'. inversion Hk'; subst k'.
+    rewrite Ha in Ha'. inversion Ha'; subst sp'.
+    destruct (family_of (a_ty sp)) as [f|] eqn:E; [|congruence].
+    rewrite (family_not_simple _ _ E) in Hs. discriminate.
+  Qed.
+
+  Lemma hoare_false {A} (m : M A) Q : hoare ct (fun _ => False) m Q.
+  Proof. intros s []. Qed.
+
+  Lemma hoare_of_pres' {A} (P : heap_t -> Prop) (m : M A) : pres ct m -> hoare ct P m (fun _ _ => True).
+  Proof. intro H. eapply hoare_pre; [|exact H]. intros; exact I. Qed.
+
+  Ltac wauto :=
+    first [ solve [apply write_container; [reflexivity|lia]]
+          | solve [apply hoare_of_pres'; pauto]
+          | lazymatch goal with
+            | |- TypeProofs.hoare _ _ (bind _ _) _ =>
+                eapply hoare_bind_keep; [apply has_shape_stable|apply hoare_of_pres'; pauto|];
+                intros; (eapply hoare_pre; [intros ? [_ ?]; eassumption|]); wauto
+            | |- TypeProofs.hoare _ _ (let _ := _ in _) _ => cbv zeta; wauto
+            | |- TypeProofs.hoare _ _ (if ?c then _ else _) _ => destruct c; wauto
+            | |- TypeProofs.hoare _ _ (match ?x with _ => _ end) _ => destruct x; wauto
+            end ].
+
+  Lemma pres_remove_seq sp c v bi :
+    pres ct (ex <- seq_extractor ct sp c v true bi ;;
+             match fst ex with
+             | VNone => ret tt
+             | VInt _ | VBool _ =>
+                 let i := match fst ex with VInt z => z | VBool true => 1%Z | _ => 0%Z end in
+                 p <- read_list c ;;
+                 match norm_index (zlen (snd p)) i with
+                 | Some n => write (fst p) (OList (remove_at n (snd p)))
+                 | None => fail IndexErr end
+             | _ => fail TypeErr end).
+  Proof.
+    apply pres_bind; [pauto|]. intros ex.
+    destruct (fst ex); try pauto; cbv zeta;
+      (eapply hoare_bind; [apply read_list_hoare|]; intros p; wauto).
+  Qed.
+
+  Lemma pres_remove_map c v :
+    pres ct (ex <- map_extractor ct c v true ;;
+             p <- read_dict c ;;
+             h' <- get_heap ;;
+             write (fst p) (ODict (filter (fun q => negb (val_eqb FUEL ct h' (fst q) (fst ex))) (snd p)))).
+  Proof.
+    apply pres_bind; [pauto|]. intros ex.
+    eapply hoare_bind; [apply read_dict_hoare|]. intros p. wauto.
+  Qed.
+
+  Lemma pres_remove_set c v :
+    pres ct (ex <- set_extractor ct c v true ;;
+             p <- read_set c ;;
+             xs <- set_discard ct (snd p) (fst ex) ;;
+             write (fst p) (OSet xs)).
+  Proof.
+    apply pres_bind; [pauto|]. intros ex.
+    eapply hoare_bind; [apply read_set_hoare|]. intros p. wauto.
+  Qed.
+
+  Local Hint Resolve pres_remove_seq pres_remove_map pres_remove_set : pr.
+
+  Lemma pres_spec_for l a : pres ct (spec_for ct l a).
+  Proof. eapply pres_post. apply spec_for_hoare. Qed.
+  Local Hint Resolve pres_spec_for : pr.
+
+  Ltac elem_case l a :=
+    eapply hoare_bind; [apply spec_for_hoare|]; intros r; cbv zeta;
+    eapply hoare_bind_keep; [apply attr_of_stable|apply pres_mk_mutator|]; intros c;
+    destruct (family_of (a_ty (snd r))) as [fam|] eqn:Fam;
+    [ eapply hoare_pre with (P := attr_of l a (snd r)); [tauto|];
+      eapply hoare_bind_keep;
+        [apply attr_of_stable|apply hoare_of_pres'; try destruct fam; pauto|];
+      intros c'; eapply hoare_pre; [|apply (store_collection l a (snd r)); congruence]; tauto
+    | eapply hoare_bind; [apply hoare_fail with (Q := fun _ _ => False)|]; intros; apply hoare_false ].
+
+  Ltac elem_case2 l a :=
+    eapply hoare_bind; [apply spec_for_hoare|]; intros r; cbv zeta;
+    eapply hoare_bind_keep; [apply attr_of_stable|apply pres_mk_mutator|]; intros c0;
+    eapply hoare_pre with (P := attr_of l a (snd r)); [tauto|];
+    eapply hoare_bind_keep; [apply attr_of_stable|apply hoare_of_pres'; pauto|]; intros c;
+    destruct (family_of (a_ty (snd r))) as [fam|] eqn:Fam;
+    [ eapply hoare_pre with (P := attr_of l a (snd r)); [tauto|];
+      eapply hoare_bind_keep;
+        [apply attr_of_stable|apply hoare_of_pres'; try destruct fam; pauto|];
+      intros c'; eapply hoare_pre; [|apply (store_collection l a (snd r)); congruence]; tauto
+    | eapply hoare_bind; [apply hoare_fail with (Q := fun _ _ => False)|]; intros; apply hoare_false ].
+
+  Theorem run_helper_pres l hp h : pres ct (run_helper ct l hp h).
+  Proof.
+    unfold run_helper. destruct (negb (h_if h)); [apply pres_ret|].
+    destruct hp.
+    - pauto.
+    - pauto.
+    - pauto.
+    - pauto.
+    - elem_case l a.
+    - elem_case l a.
+    - elem_case l a.
+    - elem_case2 l a.
+    - pauto.
+    - pauto.
+    - pauto.
+  Qed.
+
+  (* the caller may build containers (and bare instances), not instances with fields *)
+  Definition op_plain (o : op) : Prop :=
+    match o with OpAlloc (OInst _ d) => d = [] | _ => True end.
+
+  Theorem step_pres roots o : op_plain o -> pres ct (step ct roots o).
+  Proof.
+    destruct o; simpl; intro Hp; try pauto.
+    - apply pres_bind; [pauto|]. intros; apply run_helper_pres.
+    - apply pres_bind; [|intros; apply pres_ret].
+      apply pres_alloc. intros c d ->. exact Hp.
+  Qed.
+End Helpers.
